@@ -73,12 +73,23 @@ class EFLRSetsDict(defaultdict):
         # (if not exists - create it)
         if eflr_set_instance is None:
             eflr_set_instance = eflr_set_type(set_name=set_name)
+            eflr_set_instance.created_in = self
             eflr_set_dict[set_name] = eflr_set_instance
 
         return eflr_set_instance
 
+    def remove_set(self, eflr_set: EFLRSet) -> None:
+        """Remove the given EFLRSet instance from the structure (if it is there)."""
+
+        eflr_set_dict = self.get(eflr_set.__class__)
+        if eflr_set_dict is not None and eflr_set_dict.get(eflr_set.set_name) is eflr_set:
+            del eflr_set_dict[eflr_set.set_name]
+            if not eflr_set_dict:
+                del self[eflr_set.__class__]
+
     def get_all_items_for_set_type(self, eflr_set_type: type[EFLRSet]) -> Generator[AnyEFLRItem, None, None]:
         """Retrieve all EFLRItem instances registered for all instances of given EFLRSet subclass."""
 
-        for value in self[eflr_set_type].values():
+        # (plain 'get': looking the items up must not make an entry for the set type)
+        for value in self.get(eflr_set_type, {}).values():
             yield from value.get_all_eflr_items()
